@@ -1699,6 +1699,9 @@ func getTracking(td tables.TrackData, ptem float32, trackValue float32) float32 
 	if len(td.SizeTable) == 0 {
 		return 0.
 	}
+	if len(trackTableEntry.PerSizeTracking) < len(td.SizeTable) { // invalid font: null offset to the per-size values
+		return 0.
+	}
 	if len(td.SizeTable) == 1 {
 		return float32(trackTableEntry.PerSizeTracking[0])
 	}
